@@ -19,7 +19,6 @@ Ltac Zify.zify_post_hook ::= Z.div_mod_to_equations.
 Definition ids_of (l : list sample) : list N := flat_map (fun x => map p_id (s_pkts x)) l.
 Definition cids (s : st) : list N := ids_of (rev (built s)).
 
-Definition clean_log (l : list ev) : Prop := forall a h, ~ In (EvAnchor a h true) l.
 Definition clean_logb (l : list ev) : bool :=
   forallb (fun e => match e with EvAnchor _ _ true => false | _ => true end) l.
 Lemma clean_logb_ok : forall l, clean_logb l = true -> clean_log l.
